@@ -17,7 +17,7 @@ from typing import Any, Dict, List, Optional
 
 from ..core import PropCheck
 
-BODY_ENDS = ["plain", "try_except", "try_finally", "cond_return", "try_except_reraise", "try_except_return", "try_except_raise_other"]
+BODY_ENDS = ["plain", "try_except", "try_finally", "cond_return", "try_except_reraise", "try_except_return", "try_except_raise_other", "if_none_return", "if_not_none_return"]
 
 
 def rand_tree(rng: random.Random, depth: int, fan: int) -> dict:
@@ -101,6 +101,23 @@ def run_tree(case) -> dict:
                         await open_nurseries(node, i + 1)
                     except KeyError as e:
                         raise RuntimeError("other") from e
+        elif end in ("if_none_return", "if_not_none_return"):
+            # a conditional return on a None test, not taken: the exit sequence is reached only through POP_JUMP_IF_[NOT_]NONE
+            flag = 1 if end == "if_none_return" else None
+            if end == "if_none_return":
+                async with trio.open_nursery() as nursery:
+                    for ch in spec["children"]:
+                        nursery.start_soon(task_fn, ch)
+                    await open_nurseries(node, i + 1)
+                    if flag is None:
+                        return
+            else:
+                async with trio.open_nursery() as nursery:
+                    for ch in spec["children"]:
+                        nursery.start_soon(task_fn, ch)
+                    await open_nurseries(node, i + 1)
+                    if flag is not None:
+                        return 7
         elif end == "try_finally":
             async with trio.open_nursery() as nursery:
                 for ch in spec["children"]:
@@ -251,6 +268,54 @@ def run_hops(case) -> dict:
     return res
 
 
+def run_limiter(case) -> dict:
+    """Sibling tasks share a thread limiter that is exhausted: a task whose to_thread.run_sync call is still queued for the
+    limiter has no worker thread — its stack must not show another task's thread frames."""
+    import stackscope
+    import trio
+
+    res: Dict[str, Any] = {}
+    release = threading.Event()
+    lim = trio.CapacityLimiter(case["capacity"])
+
+    def held_fn():
+        release.wait(10)
+
+    async def worker():
+        await trio.to_thread.run_sync(held_fn, limiter=lim, abandon_on_cancel=False)
+
+    async def main():
+        async with trio.open_nursery() as outer:
+            for _ in range(case["tasks"]):
+                outer.start_soon(worker)
+            await trio.sleep(0.25)
+            probs = []
+            busy = queued = 0
+            for t in list(outer.child_tasks):
+                with warnings.catch_warnings(record=True):
+                    warnings.simplefilter("always")
+                    st = stackscope.extract(t, recurse_child_tasks=True)
+                names = [f.funcname for f in st.frames]
+                in_acquire = any("acquire" in n for n in names)
+                if in_acquire:
+                    queued += 1
+                    if "held_fn" in names or "wait" in names[names.index(next(n for n in names if "acquire" in n)):]:
+                        probs.append(f"a task still queued for the thread limiter shows another task's worker-thread frames: {names}")
+                else:
+                    busy += 1
+                    if "held_fn" not in names:
+                        probs.append(f"a task whose sync function is running in a worker thread does not show it: {names}")
+                if st.error is not None:
+                    probs.append(f"error {st.error!r}")
+            res["problems"] = probs
+            res["busy"], res["queued"] = busy, queued
+            release.set()
+            outer.cancel_scope.cancel()
+
+    trio.run(main)
+    return res
+
+
 class C14(PropCheck):
     pid = "C14"
     real_time_limit = 60.0
@@ -274,6 +339,8 @@ class C14(PropCheck):
         d = 2 if tier == "quick" else 3
         for _ in range(n):
             out.append({"k": "tree", "tree": rand_tree(rng, rng.randint(1, d), rng.randint(1, d))})
+        for cap, tasks in ((1, 3), (2, 5), (1, 2)):
+            out.append({"k": "limiter", "capacity": cap, "tasks": tasks})
         for m in list(range(0, 4)) + [21, 22]:        # > 100 non-frame items on one stack: the loop guard must not fire
             out.append({"k": "hops", "hops": m})
         return out
@@ -283,6 +350,8 @@ class C14(PropCheck):
         return [{"id": "F2", "case": {"k": "tree", "tree": t, "witness": "F2"}}]
 
     def run_real(self, case):
+        if case["k"] == "limiter":
+            return run_limiter(case)
         if case["k"] == "tree":
             return run_tree(json.loads(json.dumps(case)))
         return run_hops(case)
